@@ -121,7 +121,7 @@ theorem lbClosed_ward_exact (E : ExactLaws K) (G : K → Prop) : LBClosed G .war
     have hsx : 0 < sizes[x] := hpos x hlt
     have L := E.field
     rw [L.lt_false] at h1 h2 hdp ⊢
-    simp only [Gen.ward, L.add, L.sub, L.mul, L.div, L.ofNat]
+    rw [L.ward_eq_formula va vb dist sa sb sizes[x] (by omega)]
     have ha : (0 : K) < (sa : K) := Nat.cast_pos.mpr hsa
     have hb : (0 : K) < (sb : K) := Nat.cast_pos.mpr hsb
     have hx' : (0 : K) < (sizes[x] : K) := Nat.cast_pos.mpr hsx
